@@ -741,7 +741,7 @@ func main() {
 		run.Finish(evals.Load(), "replay")
 		return
 	}
-	per := run.Pick(320, 40000)
+	per := run.Pick(320, 12000)
 	for i := range cfgs {
 		cfgs[i].Seed = run.Seed*100 + int64(i)
 		runConfig(cfgs[i], per, nil)
